@@ -37,6 +37,50 @@ def sh(cmd, **kw):
     return subprocess.run(cmd, capture_output=True, text=True, **kw)
 
 
+_NUM_CACHE = {}
+
+
+def source_numbers(relpaths, lo=8, hi=1 << 20):
+    """Integer constants of the CURRENT source files AFTER preprocessing (PATH_MAX, sizeof-free array
+    sizes, thresholds of fast paths ...), restricted to the text of the files themselves (line markers
+    decide), string literals removed. The generators place lengths N-1, N, N+1 around every one of them:
+    a boundary a rewrite introduces is hit because the source names it, not because a sweep happens to
+    reach it."""
+    key = (tuple(relpaths), lo, hi)
+    if key in _NUM_CACHE:
+        return _NUM_CACHE[key]
+    nums = set()
+    for rp in relpaths:
+        path = os.path.join(REPO, rp)
+        r = sh(["gcc", "-E", "-D_GNU_SOURCE", "-D" + GUARD] + include_flags() + [path])
+        if r.returncode != 0:
+            continue
+        own = False
+        for line in r.stdout.splitlines():
+            m = re.match(r'# \d+ "([^"]*)"', line)
+            if m:
+                own = os.path.realpath(m.group(1)) == os.path.realpath(path)
+                continue
+            if not own:
+                continue
+            line = re.sub(r'"(?:[^"\\]|\\.)*"', '""', line)
+            line = re.sub(r"'(?:[^'\\]|\\.)+'", "0", line)
+            for t in re.findall(r"(?<![\w.])(0[xX][0-9a-fA-F]+|\d+)[uUlL]*(?![\w.])", line):
+                try:
+                    v = int(t, 0) if t.lower().startswith("0x") else int(t.lstrip("0") or "0")
+                except ValueError:
+                    continue
+                if lo <= v <= hi:
+                    nums.add(v)
+            # constant expressions written as a product or a shift of two literals ((1024 * 1024), 1 << 20)
+            for a_, op_, b_ in re.findall(r"(?<![\w.])(\d+)[uUlL]*\s*(\*|<<)\s*(\d+)[uUlL]*(?![\w.])", line):
+                v = int(a_) * int(b_) if op_ == "*" else (int(a_) << min(int(b_), 40))
+                if lo <= v <= hi:
+                    nums.add(v)
+    _NUM_CACHE[key] = sorted(nums)
+    return _NUM_CACHE[key]
+
+
 class Lock:
     def __init__(self, name):
         os.makedirs(BUILD, exist_ok=True)
@@ -129,6 +173,54 @@ def build_impl(variant="asan"):
 
 class BuildError(Exception):
     pass
+
+
+_C_ESC = {"n": 10, "t": 9, "r": 13, "0": 0, "\\": 92, "'": 39, '"': 34, "a": 7, "b": 8, "f": 12, "v": 11, "?": 63}
+
+
+def _c_unescape(body):
+    out, i = bytearray(), 0
+    while i < len(body):
+        c = body[i]
+        if c != "\\" or i + 1 >= len(body):
+            out += c.encode("latin-1", "replace"); i += 1; continue
+        n = body[i + 1]
+        if n == "x":
+            m = re.match(r"[0-9a-fA-F]+", body[i + 2:])
+            if m:
+                out.append(int(m.group(0), 16) & 0xff); i += 2 + len(m.group(0)); continue
+        m = re.match(r"[0-7]{1,3}", body[i + 1:])
+        if m:
+            out.append(int(m.group(0), 8) & 0xff); i += 1 + len(m.group(0)); continue
+        out.append(_C_ESC.get(n, ord(n) & 0xff)); i += 2
+    return bytes(out)
+
+
+def source_dictionary(relpaths, maxlen=24):
+    """String literals and character constants of the CURRENT source files (comments removed, printf
+    conversions cut out) - the generators mix them into names, values and texts, so that a code path
+    that waits for one particular token (an escape sequence, a keyword, a magic prefix) is reached by
+    construction and not by luck. Returns a sorted list of distinct non-empty byte strings."""
+    toks = set()
+    for rp in relpaths:
+        try:
+            text = open(os.path.join(REPO, rp), errors="replace").read()
+        except OSError:
+            continue
+        text = re.sub(r"/\*.*?\*/", " ", text, flags=re.S)
+        text = re.sub(r"//[^\n]*", " ", text)
+        for m in re.finditer(r'"((?:[^"\\\n]|\\.)*)"', text):
+            raw = _c_unescape(m.group(1))
+            for piece in re.split(rb"%[-+ #0]*[0-9*]*(?:\.[0-9*]+)?(?:hh|h|ll|l|z|j|t)?[diouxXcsfgeEpn%]", raw):
+                if 0 < len(piece) <= maxlen:
+                    toks.add(piece)
+                    toks.add(piece.strip())
+        for m in re.finditer(r"'((?:[^'\\\n]|\\.)+)'", text):
+            b = _c_unescape(m.group(1))
+            if len(b) == 1:
+                toks.add(b)
+    toks.discard(b"")
+    return sorted(t for t in toks if not re.search(rb"\.[ch]$", t))
 
 
 def build_harness(name, impl_dir, variant="asan", wraps=(), extra=(), lib="libq.a"):
